@@ -297,7 +297,7 @@ class EnvBoundaryMPS():
 
         return out
 
-    def measure_nsite(self, *operators, sites=None) -> float:
+    def measure_nsite(self, *operators, sites=None, opts_svd=None, opts_var=None) -> float:
         r"""
         Calculate expectation value of a product of local operators.
 
@@ -310,11 +310,19 @@ class EnvBoundaryMPS():
 
         sites: Sequence[int]
             A list of sites [s0, s1, ...] matching corresponding operators.
+
+        opts_svd: dict
+            Options passed to :meth:`yastn.tn.mps.zipper` when the window spans more than one column.
+            The default ``None`` limits the bond dimension to the largest one of the boundary MPSs,
+            which truncates (possibly to zero) the contribution of charged operators; provide it for an exact contraction.
+
+        opts_var: dict
+            Options passed to :meth:`yastn.tn.mps.compression_`.
         """
         self.xrange = (0, self.psi.Nx) # (min(site[0] for site in sites), max(site[0] for site in sites) + 1)
         self.yrange = (min(site[1] for site in sites), max(site[1] for site in sites) + 1)
         dirn = 'lr'
-        return _measure_nsite(self, *operators, sites=sites, dirn=dirn)
+        return _measure_nsite(self, *operators, sites=sites, dirn=dirn, opts_svd=opts_svd, opts_var=opts_var)
 
     def measure_2site(self, O, P, xrange=None, yrange=None, pairs='corner <=', dirn='v', opts_svd=None, opts_var=None):
         r"""
